@@ -317,7 +317,9 @@ func bigWorker(from int, progress string) {
 		panic(err)
 	}
 	defer f.Close()
-	for i := from; i < len(cs); i++ {
+	// one case per process: the compressor never closes its zstd encoders/decoders, a long-lived worker that handles
+	// hundreds of megabytes per case accumulates them until it is killed for lack of memory
+	for i := from; i < len(cs) && i < from+1; i++ {
 		c := cs[i]
 		fmt.Fprintf(f, "{\"begin\":%d}\n", i)
 		in := bigInput(seed, c.Size, c.Comp)
@@ -608,6 +610,9 @@ func main() {
 			pf.Close()
 		}
 		os.Remove(bprog)
+		if done < len(bcs) && begun >= 0 && begun < done && !timedOut {
+			continue // (one case per child)
+		}
 		if done < len(bcs) {
 			deaths++
 			if begun == done || begun == -1 {
